@@ -264,6 +264,53 @@ fn cmd_prefixfind(arg: &str) -> String {
     format!("X {}", hex_encode(c.to_string().as_bytes()))
 }
 
+/// Run the real `any` binary (path in VERIF_ANY_BIN) on a query and reduce its
+/// stdout to items: `L<hex line>` for a result line, `D<kind>:<line>:<col>` for a diagnostic.
+fn cmd_cli(query: &str, exact: bool) -> String {
+    let bin = std::env::var("VERIF_ANY_BIN").expect("VERIF_ANY_BIN");
+    let xdg = std::env::var("VERIF_XDG").expect("VERIF_XDG");
+    let mut cmd = std::process::Command::new(bin);
+    if exact {
+        cmd.arg("--exact");
+    }
+    cmd.arg("--").arg(query);
+    cmd.env("XDG_DATA_HOME", &xdg).env("HOME", &xdg).env("NO_COLOR", "1").env("TERM", "dumb");
+    cmd.env_remove("RUST_LOG");
+    let out = match cmd.output() {
+        Ok(o) => o,
+        Err(e) => return format!("O SPAWNERR {}", e),
+    };
+    let stdout = String::from_utf8_lossy(&out.stdout).to_string();
+    let mut items = Vec::new();
+    let mut lines = stdout.split('\n').peekable();
+    while let Some(l) = lines.next() {
+        if let Some(msg) = l.strip_prefix("error: ") {
+            // diagnostic block: `  ┌─ <in>:L:C`, source lines, until a blank line
+            let mut pos = String::from("?");
+            while let Some(n) = lines.peek() {
+                if n.is_empty() {
+                    lines.next();
+                    break;
+                }
+                if let Some(i) = n.find("<in>:") {
+                    pos = n[i + 5..].trim().to_string();
+                }
+                lines.next();
+            }
+            items.push(format!("D{}:{}", err_kind(msg), pos));
+        } else if l.is_empty() && lines.peek().is_none() {
+            // trailing newline
+        } else {
+            items.push(format!("L{}", hex_encode(l.as_bytes())));
+        }
+    }
+    format!(
+        "O {} X{}",
+        if items.is_empty() { "-".to_string() } else { items.join("|") },
+        out.status.code().unwrap_or(-1)
+    )
+}
+
 fn dispatch(db: &mut Option<Db>, line: &str) -> String {
     let parts: Vec<&str> = line.split(' ').collect();
     let cmd = parts[0];
@@ -301,6 +348,7 @@ fn dispatch(db: &mut Option<Db>, line: &str) -> String {
         }
         "cbor" => cbor::cmd_cbor(&parts[1..]),
         "db" => "DB".to_string(),
+        "cli" => cmd_cli(&arg(1), parts.get(2).copied() == Some("exact")),
         _ => format!("? unknown command {}", cmd),
     }
 }
